@@ -106,6 +106,8 @@ func c06Err(err error) []string {
 		return errs(7)
 	case errors.Is(err, ptt.ErrNoRecord):
 		return errs(8)
+	case errors.Is(err, cmsys.ErrPttLock):
+		return errs(10) // refused by the per-process lock table
 	}
 	if os.Getenv("VERIF_SHOW_PANIC") != "" {
 		fmt.Fprintln(os.Stderr, "unmapped error:", err)
@@ -138,20 +140,34 @@ func init() {
 	copy(boardID[:], []byte("WhoAmI"))
 	var boardDir string
 
+	// layout of the index path (wrapper "30 layout op"): 0 a regular file; 1 a symbolic link to a file next to it
+	// (relative target); 2 a symbolic link to a file in another directory (absolute target); 3 a chain of two links;
+	// 4 a second hard link of a file kept under another name.  firstAccess: the board's cached article count is NOT
+	// set by the harness but reset to 0 ("not yet in shared memory") and obtained by the project's own first-access
+	// path cache.GetBTotalWithRetry -> SetBTotal.
+	layout := int64(0)
+	firstAccess := false
 	write := func(slot int, fn string, toks []string) []c06Entry {
 		es := c06Parse(toks)
-		key := strings.Join(toks, " ")
-		if lastKey[slot] != key || key == "" {
-			must(os.WriteFile(fn, c06Bytes(es), 0o644))
+		key := fmt.Sprintf("%d:%v:", layout, firstAccess) + strings.Join(toks, " ")
+		if lastKey[slot] != key {
+			c06Place(fn, filepath.Join(dir, fmt.Sprintf("vol%d.DIR", slot)), layout, c06Bytes(es))
 			lastKey[slot] = key
 			if slot == 1 {
-				// SetBTotal stores the record count first and then fails on an unparsable LAST entry
-				// (it cannot derive the last post time); the count is what the listing needs.
-				_ = cache.SetBTotal(bid)
+				if firstAccess {
+					cache.Shm.Shm.Total[bid.ToBidInStore()] = 0
+					// the error of an unparsable LAST entry (no last post time) is ignored as below; the count is stored before it
+					_, _ = cache.GetBTotalWithRetry(bid)
+				} else {
+					// SetBTotal stores the record count first and then fails on an unparsable LAST entry
+					// (it cannot derive the last post time); the count is what the listing needs.
+					_ = cache.SetBTotal(bid)
+				}
 			}
 		}
 		return es
 	}
+	var runBase func(args [][]string) []string
 
 	register("C06", &propDriver{
 		setup: func() {
@@ -172,6 +188,35 @@ func init() {
 			env.close()
 		},
 		run: func(args [][]string) []string {
+			layout, firstAccess = 0, false
+			switch ai(args[0][0]) {
+			case 30: // "30 layout op": op on an index reached through that path layout, count by first access
+				if len(args[0]) != 3 || ai(args[0][1]) < 0 || ai(args[0][1]) > 4 {
+					return []string{"9"}
+				}
+				layout, firstAccess = ai(args[0][1]), true
+				return runBase(append([][]string{{args[0][2]}}, args[1:]...))
+			case 31: // "31 mode op": op while another operation of this process is inside the same index
+				if len(args[0]) != 3 || len(args) < 2 {
+					return []string{"9"}
+				}
+				inner := append([][]string{{args[0][2]}}, args[1:]...)
+				slot, fn := 0, dirFile
+				switch ai(args[0][2]) {
+				case 1, 2, 3, 4:
+				case 5, 7:
+					slot, fn = 1, boardDir
+				default:
+					return []string{"9"}
+				}
+				write(slot, fn, inner[1])
+				defer func() { lastKey[slot] = "\x00" }() // a released writer changes the file
+				return c06Overlap(ai(args[0][1]), fn, int(len(inner[1])/2), func() []string { return runBase(inner) })
+			}
+			return runBase(args)
+		},
+	})
+	runBase = func(args [][]string) []string {
 			sd := int64(2)
 			if ai(args[0][0]) == 20 { // "20 sd op": op under FN_SAFEDEL of sd bytes
 				if len(args[0]) != 3 {
@@ -381,8 +426,7 @@ func init() {
 				return ok("0")
 			}
 			return []string{"9"}
-		},
-	})
+	}
 }
 
 // the site configuration FN_SAFEDEL = the first sd bytes of ".deleted" (sd = 2: ".d", the default), set the way a
